@@ -234,8 +234,8 @@ PROPS["C16"]["explanation"] = ("Proved for all inputs: gap_degree_node == set-ba
                                "(both modes; recursion with a decreasing rank). Printed reports, the three-way agreement and that the reordering "
                                "is the identity on continuous trees are bounded only.")
 PROPS["C19"]["technique"] = ("contract-based deductive verification (pyvc, read-only heap with ghost depth/anc/pos/rank) of terminals, children, "
-                             "preorder, postorder, right_sibling, left_sibling, dominance, lca + lemmas (siblings inverse, lca lowest); bounded "
-                             "stand-in for levels/numbering and for the ghost theory")
+                             "preorder, postorder, levels, right_sibling, left_sibling, dominance, lca + lemmas (siblings inverse, lca lowest; two "
+                             "list lemmas in Lean); bounded stand-in for the export numbering and for the ghost theory")
 PROPS["C19"]["explanation"] = ("terminals (only tokens below the node, strictly increasing numbers, exactly as many as there are; recursion with a "
                                "decreasing rank; sorted() modelled as an ordered permutation) and children (a permutation of the stored child "
                                "list in strict order of least token) are proved against these characterisations; right_sibling/left_sibling "
@@ -243,9 +243,12 @@ PROPS["C19"]["explanation"] = ("terminals (only tokens below the node, strictly 
                                "and lca (none iff one dominates the other; otherwise the lowest common dominator) are proved for every "
                                "well-formed tree of any size over the contracts of children/terminals. preorder and postorder (recursive generators, "
                                "nested loop invariants) are proved to yield the recursively defined lists P / Q: every node below the argument "
-                               "exactly once, the argument first / last, ancestors before / after their descendants. levels and the export "
-                               "numbering are bounded only; the ghost theory of well-formed trees is validated on enumerated trees.")
-PROPS["C19"]["level_text"] = "proof for terminals/children/preorder/postorder/siblings/dominance/lca, bounded stand-in for levels and numbering; 'other'"
+                               "exactly once, the argument first / last, ancestors before / after their descendants. levels (three nested loops, two "
+                               "dicts) records for exactly the constituents below the argument the longest downward path to a token and lists "
+                               "each under that height. terminals is also proved complete (every token below occurs), and the list lemma that "
+                               "makes such a strictly ordered enumeration unique is proved in Lean and re-checked on every run. The export "
+                               "numbering is bounded only; the ghost theory of well-formed trees is validated on enumerated trees.")
+PROPS["C19"]["level_text"] = "proof for terminals/children/preorder/postorder/levels/siblings/dominance/lca, bounded stand-in for the export numbering; 'other'"
 
 PROPS["C10"]["assumptions"] = PROPS["C10"]["assumptions"] + [
     "gap system: the replay automaton puts the deque back onto the stack top-first (the convention of transitions.gap "
